@@ -15,7 +15,7 @@ import (
 )
 
 type jobStats struct {
-	feasQ, oblQ, oblProved, unknown, merges, mergeAborts, symIdx, concretized, realLib int
+	feasQ, oblQ, oblProved, unknown, merges, mergeAborts, symIdx, concretized, realLib, cacheHits int
 }
 
 type Job struct {
@@ -34,6 +34,7 @@ type Job struct {
 	MapOrder     bool              `json:"map_order"`
 	GoInline     bool              `json:"go_inline"`
 	MaxViol      int               `json:"max_viol"`
+	NoCache      bool              `json:"no_cache"`
 	NSamples     int               `json:"nsamples"`
 	Vectors      [][]int64         `json:"vectors,omitempty"` // concrete mode
 
@@ -43,6 +44,7 @@ type Job struct {
 	res     JobResult
 	start   time.Time
 	stopped bool
+	started bool
 	active  int
 	queued  int
 	asserts map[string]*assertStat
@@ -112,6 +114,7 @@ func (j *Job) unwindHit(b *ssa.BasicBlock) {
 
 type workItem struct {
 	job    *Job
+	model  Model
 	prefix []dec
 	vec    []int64 // concrete mode
 	conc   bool
@@ -171,7 +174,6 @@ func newWorker(P *Program, solverKind SolverKind, timeoutMs int, logf *os.File) 
 	w.B = w.baseB
 	w.known = map[*Term]bool{}
 	w.loopCnt = map[*ssa.BasicBlock]int{}
-	w.pcVars = map[*Term]bool{}
 	return w, nil
 }
 
@@ -181,6 +183,10 @@ func (w *Worker) runItem(it workItem, q *queue) {
 	if job.stopped {
 		job.mu.Unlock()
 		return
+	}
+	if !job.started {
+		job.started = true
+		job.start = time.Now()
 	}
 	if job.TimeoutS > 0 && time.Since(job.start) > time.Duration(job.TimeoutS)*time.Second {
 		job.stopped = true
@@ -203,9 +209,13 @@ func (w *Worker) runItem(it workItem, q *queue) {
 	w.known = map[*Term]bool{}
 	w.knownLog = nil
 	w.pc = nil
-	w.pcVars = map[*Term]bool{}
+	w.uf = map[string]string{}
+	w.comp = map[string][]int{}
+	w.dirty = map[string]bool{}
 	w.model, w.modelOK = Model{}, true
-	w.lastModel = nil
+	if it.model != nil {
+		w.model = it.model
+	}
 	w.prefix, w.pos, w.trace = it.prefix, 0, nil
 	w.nondet = nil
 	w.pending = nil
@@ -227,8 +237,6 @@ func (w *Worker) runItem(it workItem, q *queue) {
 			w.concreteVec = []int64{}
 		}
 	}
-	w.S.errLine = ""
-	w.S.Push()
 	end := "done"
 	errMsg := ""
 	t0 := w.S.Time
@@ -278,7 +286,6 @@ func (w *Worker) runItem(it workItem, q *queue) {
 	if end == "done" && !it.conc && w.modelOK {
 		sampleVec, sampleKinds = w.vectorFrom(w.model)
 	}
-	w.S.PopAll()
 	w.rollback(0)
 	solverT := w.S.Time - t0
 
@@ -340,7 +347,7 @@ func (w *Worker) runItem(it workItem, q *queue) {
 	job.stats.add(&w.st)
 	if !job.stopped {
 		for _, p := range w.newWork {
-			q.push(workItem{job: job, prefix: p})
+			q.push(workItem{job: job, prefix: p.prefix, model: p.model})
 		}
 	}
 }
@@ -397,6 +404,7 @@ func (s *jobStats) add(o *jobStats) {
 	s.symIdx += o.symIdx
 	s.concretized += o.concretized
 	s.realLib += o.realLib
+	s.cacheHits += o.cacheHits
 }
 
 func main() {
@@ -582,7 +590,7 @@ func (j *Job) finish() {
 	j.res.Queries = map[string]int{
 		"feasibility": j.stats.feasQ, "obligation_batches": j.stats.oblQ, "obligations_proved": j.stats.oblProved,
 		"unknown": j.stats.unknown, "merges": j.stats.merges, "merge_aborts": j.stats.mergeAborts,
-		"symbolic_index_ops": j.stats.symIdx, "concretizations": j.stats.concretized, "real_library_calls": j.stats.realLib,
+		"symbolic_index_ops": j.stats.symIdx, "concretizations": j.stats.concretized, "real_library_calls": j.stats.realLib, "query_cache_hits": j.stats.cacheHits,
 	}
 	if j.res.Status == "ok" && len(j.res.Violations) > 0 {
 		j.res.Status = "violated"
